@@ -146,6 +146,34 @@ func intrinsicTable() map[string]intrinsic {
 		}
 		return w.tt.False
 	}
+	t[p+"vassertK"] = func(w *Worker, fn *ssa.Function, a []Value) Value {
+		id, kid := a[0].(string), a[1].(string)
+		region, ok := a[2].(*Term), a[3].(*Term)
+		if !w.eng.cfg.KnownOpen[kid] {
+			w.assertion(id, ok)
+			return nil
+		}
+		// open finding: (1) it must still be observable inside its region, (2) outside the region the property must hold
+		if !w.replaying() && w.mergeLvl == 0 {
+			bad := w.tt.And(region, w.tt.Not(ok))
+			if !bad.IsConst() || bad.val == 1 {
+				if r, m := w.feasible(bad, true); r == Sat {
+					v := w.violationFromModel("assert", id, m)
+					v.Known = kid
+					w.eng.mu.Lock()
+					w.eng.res.Violations = append(w.eng.res.Violations, v)
+					w.eng.mu.Unlock()
+				}
+			}
+		}
+		w.assertion(id, w.tt.Or(region, ok))
+		if !w.replaying() {
+			w.assume(ok)
+		} else if !ok.IsConst() {
+			w.pc = append(w.pc, ok)
+		}
+		return nil
+	}
 	t[p+"vsymbolic"] = func(w *Worker, fn *ssa.Function, a []Value) Value { return w.tt.True }
 	t[p+"vconcrete"] = func(w *Worker, fn *ssa.Function, a []Value) Value {
 		// vconcrete(x int) int: case-split x over its feasible values
